@@ -2189,4 +2189,28 @@ theorem specRun_length_le (fuel : Nat) : ∀ (ops : List Op) (σ : Spec), σ.con
   | nil => intro σ; exact Nat.le_refl _
   | cons op ops ih => intro σ; simp only [specRun]; exact Nat.le_trans (specStep_length_le fuel σ op) (ih _)
 
+/-- Bool form of "every binding of the table respects the rank" -/
+def rankedB (rk : Nat → Nat) (t : List (Nat × Injector)) : Bool :=
+  t.all fun kv => kv.2.facs.all fun f => (pluck f).all fun a => rk a.accept < rk kv.1
+
+theorem rankedB_binds {rk : Nat → Nat} {t : List (Nat × Injector)} (h : rankedB rk t = true) :
+    Op.BindsP (RankP rk) (.newLazy t) := by
+  intro kv hkv f hf a ha
+  simp only [rankedB, List.all_eq_true, decide_eq_true_eq] at h
+  exact h kv hkv f hf a ha
+
+theorem lookup_getD_le (t : List (Nat × Nat)) (m s : Nat) (h : t.all (fun kv => kv.2 ≤ m) = true) : (t.lookup s).getD 0 ≤ m := by
+  induction t with
+  | nil => simp
+  | cons kv t ih =>
+    obtain ⟨k, v⟩ := kv
+    simp only [List.all_cons, Bool.and_eq_true, decide_eq_true_eq] at h
+    simp only [List.lookup]
+    split
+    · simpa using h.1
+    · exact ih h.2
+
+theorem RankP_nil (rk : Nat → Nat) (s : Nat) (f : Factory) (h : f.params = []) : RankP rk s f := by
+  intro a ha; simp [pluck, pluckA, Factory.annotated, h] at ha
+
 end Tranp.DI
